@@ -74,6 +74,24 @@ def cases(ctx):
         yield ('omul', [1, 1, a, b], lambda a=a, b=b: [(ORIS[a] * ORIS[b]).value], lambda R: [R.z()], (a, b), a != 0 and b != 0)
     for a in range(4):
         yield ('oneg', [1, 2, a], lambda a=a: [(-ORIS[a]).value], lambda R: [R.z()], a, a > 1)
+    # exhaustive small coordinates: every pose with coordinates in -2..2 x areas with bounds in -2..1 (neighbouring cases differ in ONE
+    # coordinate -- including -1 vs -2, which python hashes alike -- so a memo keyed too weakly answers with its twin's result)
+    small = range(-2, 3)
+    areas = [(y0, y1, x0, x1) for y0 in (-2, -1, 0) for y1 in (y0, y0 + 1) for x0 in (-2, -1, 0) for x1 in (x0, x0 + 2)]
+    for o in range(4):
+        for py in small:
+            for px in small:
+                p = (py, px)
+                for ar in (areas if ctx.tier == 'thorough' else areas[::3]):
+                    yield ('tact_area', [1, 7, *p, o, *ar], lambda p=p, o=o, ar=ar: guard(lambda: at(T(p, o) * A(ar))),
+                           lambda R: R.res(lambda: (R.z(), R.z(), R.z(), R.z())), ('small', p, o, ar), o != 0)
+                for q in ((-1, 2), (-2, 2), (2, -1), (2, -2)):
+                    yield ('tact', [1, 6, *p, o, *q], lambda p=p, o=o, q=q: list((T(p, o) * P(q)).yx), lambda R: list(R.pos()), ('small', p, o, q), o != 0)
+                    yield ('tmul', [1, 5, *p, o, *q, (o + 1) % 4], lambda p=p, o=o, q=q: (lambda t: [t.position.y, t.position.x, t.orientation.value])(T(p, o) * T(q, (o + 1) % 4)),
+                           lambda R: [R.z(), R.z(), R.z()], ('small', p, o, q), True)
+        for ar in areas:
+            yield ('orot_area', [1, 4, o, *ar], lambda o=o, ar=ar: guard(lambda: at(ORIS[o] * A(ar))),
+                   lambda R: R.res(lambda: (R.z(), R.z(), R.z(), R.z())), ('small', o, ar), o != 0)
     for _ in range(n):
         o, o2 = r.randrange(4), r.randrange(4)
         p, q = rand_pos(r), rand_pos(r)
